@@ -61,6 +61,18 @@ pub fn run(args: &[String]) -> i32 {
             Ok(None) => {}
             Ok(Some(Err(e))) => {
                 if want { hit(format!("C05|Field{}|in-format-rejected|{}", tag, lab), json!({"err": e})); }
+                // C03 at field level: a well-formed component value -- one the pool of boundary contents would hand to
+                // the message level, if the field did not refuse it -- is accepted
+                let structural = label.split(" & ").all(|d| {
+                    let atom = d.rsplit('.').next().unwrap_or("");
+                    d.is_empty() || ["min", "max", "absent", "1line", "maxlines"].contains(&atom) || d.ends_with("lastline.max") || atom.ends_with("-max") || atom == "AMT-maxc"
+                });
+                if want && structural && !content.contains('<') {
+                    let mut r = replay.clone();
+                    r["detail"] = json!({"err": e});
+                    let en = c03.entry(format!("C03|Field{}|rejected|{}", tag, lab)).or_insert((0, r));
+                    en.0 += 1;
+                }
             }
             Ok(Some(Ok(o))) => {
                 // ---- C02 at field level: whatever is accepted must survive its own serialisation
